@@ -355,6 +355,9 @@ def check_collections(res, N, exons, strand, a, b):
             ("start_end", lambda t: (t.start, t.end)),
             ("chromosome_location", lambda t: lib.loc_blocks(t.chromosome_location)),
             ("guid", lambda t: str(t.guid)),
+            # the chromosome-coordinate GFF3 rows (columns 1-8; column 9 carries the identifiers, of which the collection's own
+            # guid is the subject of known finding C07-collection-guid) - also when the chunk holds no base of the collection
+            ("to_gff-columns", lambda t: [str(r).split("\t")[:8] for r in t.to_gff()]),
         ):
             a0, a1 = lib.outcome(fn, x0), lib.outcome(fn, x1)
             res.trans()
